@@ -311,7 +311,7 @@ func runC43(p *core.Prog, r *core.Report) {
 
 	// ---------------- R5 setModeStorage
 	r5 := r.Rule("C43.R5", "setModeStorage succeeds without reopening only when the requested mode equals the reported one; otherwise only after Close and Open(requested read-only flag) succeeded", 2)
-	if ss := p.Func(shardT + ".setModeStorage"); ss == nil {
+	if entry := p.Func(shardT + ".setModeStorage"); entry == nil {
 		r.Fatalf("C43.R5: setModeStorage not found")
 	} else {
 		same := core.Guard{Name: "mode-unchanged", Comps: []core.Comp{{Result: -1, Kind: core.IsTrue}}, Value: func(fn *ssa.Function, v ssa.Value) bool {
@@ -325,23 +325,15 @@ func runC43(p *core.Prog, r *core.Report) {
 			}
 			return isLoad(bo.X) && core.ParamIndex(fn, bo.Y) == 1 || isLoad(bo.Y) && core.ParamIndex(fn, bo.X) == 1
 		}}
-		cl := core.Guard{Name: "closed", Match: func(s core.Site) bool { return strings.HasSuffix(s.Name, "common.Storage).Close") }, Comps: []core.Comp{{Result: -1, Kind: core.ErrNil}}}
-		op := core.Guard{Name: "reopened-in-requested-mode", Match: func(s core.Site) bool {
-			if !strings.HasSuffix(s.Name, "common.Storage).Open") {
-				return false
-			}
-			c, ok := s.Call.Common().Args[0].(*ssa.Call)
-			return ok && strings.HasSuffix(core.CalleeName(c), "mode.Mode).ReadOnly") && core.ParamIndex(ss, c.Call.Args[0]) == 1
-		}, Comps: []core.Comp{{Result: -1, Kind: core.ErrNil}}}
-		_ = cl
-		// (a) success returns that are not preceded by Close need mode-unchanged
-		var closeCall ssa.CallInstruction
-		for _, cs := range core.CallSites([]*ssa.Function{ss}, cl.Match) {
-			closeCall = cs.Call
-		}
-		if closeCall == nil {
-			r5.Bad(core.FuncName(ss)+"#Close", p.Pos(ss.Pos()), "setModeStorage no longer closes the blob storage")
+		// the reopening itself may live in setModeStorage or in a helper it hands its mode to
+		ss := storageReopener(p)
+		if ss == nil {
+			r5.Bad(core.FuncName(entry)+"#Close", p.Pos(entry.Pos()), "setModeStorage no longer closes the blob storage (neither itself nor through a helper that is given the requested mode)")
 		} else {
+			var closeCall ssa.CallInstruction
+			for _, cs := range core.CallSites([]*ssa.Function{ss}, isStorageClose) {
+				closeCall = cs.Call
+			}
 			gf := core.Flow(ss, []core.Guard{same})
 			mr := core.NewMemReach(ss)
 			nRet := 0
@@ -359,7 +351,8 @@ func runC43(p *core.Prog, r *core.Report) {
 				}
 				nRet++
 				if !closeCall.Block().Dominates(b) {
-					r5.Check(gf.Passed(gf.At(ret), 0), core.FuncName(ss)+"#return-without-reopen", p.InstrPos(ret), "skips reopening only when the requested mode equals the reported one", "setModeStorage reports success without reopening the blob storage although the requested mode differs from the reported one: a component left in another mode by an earlier partial switch is never brought back")
+					// (a) success returns that are not preceded by Close need mode-unchanged
+					r5.Check(ss == entry && gf.Passed(gf.At(ret), 0), core.FuncName(ss)+"#return-without-reopen", p.InstrPos(ret), "skips reopening only when the requested mode equals the reported one", "reports success without reopening the blob storage although the requested mode differs from the reported one: a component left in another mode by an earlier partial switch is never brought back")
 					continue
 				}
 				// (b) after Close: the nil return must sit on the nil edge of a test of a value that merges every storage call's error
@@ -396,11 +389,27 @@ func runC43(p *core.Prog, r *core.Report) {
 				}
 				r5.Check(okAll, core.FuncName(ss)+"#return-after-reopen", p.InstrPos(ret), "success only when Close, Open and Init all returned nil (their errors merge into the tested value)", "success after reopening does not depend on the error of: "+strings.Join(missing, ","))
 			}
-			if nRet < 2 {
-				r.Fatalf("C43.R5: %d nil returns in setModeStorage, expected 2", nRet)
-			}
 			// Open is asked for the requested mode's read-only flag
-			r5.Check(len(core.CallSites([]*ssa.Function{ss}, op.Match)) == 1, core.FuncName(ss)+"#Open(m.ReadOnly())", p.Pos(ss.Pos()), "reopened with the requested mode's read-only flag", "the blob storage is not reopened with m.ReadOnly() of the requested mode")
+			r5.Check(len(core.CallSites([]*ssa.Function{ss}, func(s core.Site) bool {
+				if !strings.HasSuffix(s.Name, "common.Storage).Open") {
+					return false
+				}
+				c, ok := s.Call.Common().Args[0].(*ssa.Call)
+				return ok && strings.HasSuffix(core.CalleeName(c), "mode.Mode).ReadOnly") && core.ParamIndex(ss, c.Call.Args[0]) == 1
+			})) == 1, core.FuncName(ss)+"#Open(m.ReadOnly())", p.Pos(ss.Pos()), "reopened with the requested mode's read-only flag", "the blob storage is not reopened with m.ReadOnly() of the requested mode")
+			if ss != entry {
+				// (c) the entry succeeds only with the mode unchanged or the helper's success for the requested mode
+				reopened := core.Guard{Name: "reopened", Match: func(s core.Site) bool {
+					return s.Name == core.FuncName(ss) && len(s.Call.Common().Args) == 2 && core.ParamIndex(entry, s.Call.Common().Args[1]) == 1
+				}, Comps: []core.Comp{{Result: -1, Kind: core.ErrNil}}}
+				before := len(r.Obls)
+				core.CheckSuccessFn(p, r5, entry, core.SuccessRule{ResultIdx: -1, MinReturns: 1, Guards: []core.Guard{same, reopened},
+					Derived: []core.Derived{{Name: "storage-follows-the-switch", Alts: [][]string{{"mode-unchanged"}, {"reopened"}}}}, Need: []string{"storage-follows-the-switch"}})
+				nRet += len(r.Obls) - before
+			}
+			if nRet < 2 {
+				r.Fatalf("C43.R5: %d nil returns in setModeStorage and its reopening helper, expected 2", nRet)
+			}
 		}
 	}
 	// ---------------- R6 a component records a mode that needs its store only after the store was opened
@@ -600,4 +609,28 @@ func componentModeAfterOpen(p *core.Prog, r *core.Report, h *core.RuleH) {
 	if n == 0 {
 		r.Fatalf("%s: no store to a component mode field found", h.ID())
 	}
+}
+
+func isStorageClose(s core.Site) bool { return strings.HasSuffix(s.Name, "common.Storage).Close") }
+
+// storageReopener finds the shard function that closes and reopens the blob storage for a mode switch:
+// setModeStorage itself, or the helper it passes its requested mode to.
+func storageReopener(p *core.Prog) *ssa.Function {
+	entry := p.Func(shardT + ".setModeStorage")
+	if entry == nil {
+		return nil
+	}
+	if len(core.CallSites([]*ssa.Function{entry}, isStorageClose)) > 0 {
+		return entry
+	}
+	for _, cs := range core.CallSites([]*ssa.Function{entry}, func(s core.Site) bool { return strings.HasPrefix(s.Name, "(*pkg/local_object_storage/shard.Shard).") }) {
+		callee := cs.Call.Common().StaticCallee()
+		if callee == nil || len(cs.Call.Common().Args) != 2 || core.ParamIndex(entry, cs.Call.Common().Args[1]) != 1 {
+			continue
+		}
+		if len(core.CallSites([]*ssa.Function{callee}, isStorageClose)) > 0 {
+			return callee
+		}
+	}
+	return nil
 }
